@@ -9,6 +9,7 @@ from .driver import Unit
 
 VERSIONS = ["KMIP_1_0", "KMIP_1_1", "KMIP_1_2", "KMIP_1_3", "KMIP_1_4", "KMIP_2_0"]
 OBLIGATIONS = ["enc.ok", "wf", "dec2.ok", "rt.eq", "reenc.same", "dec.deterministic"]
+VERSION_OBLIGATION = "fields-defined-by-this-version"
 
 
 def in_child(fn, *args):
@@ -155,6 +156,33 @@ def _explore_class(sess, cname, summ, tier, known, prop):
                     sess.record(res)
             if not exhaustive:
                 bounded_names.append(name)
+        if prop == "C16":
+            # every tag the decoder accepts under this version was introduced by it or an earlier one
+            from contracts import spec_versions as SV
+            vt = tuple(int(x) for x in vn.replace("KMIP_", "").split("_"))
+            name = "%s/%s" % (base, VERSION_OBLIGATION)
+            if SV.structure_introduced(cname.rsplit(".", 1)[-1]) > vt:
+                continue        # the structure itself belongs to a later version (see spec_versions)
+            late = {}
+            for a in acc:
+                for t in _tags_of(a.tree):
+                    for part in t.split(">"):
+                        iv = SV.introduced(getattr(enums.Tags, part).value)
+                        if iv > vt:
+                            late.setdefault(part, (iv, a))
+            if not late:
+                sess.record(pyvc.ObligationResult(name, "ttlv", "proved", "%d shapes" % len(acc), None, None, "ttlvsym"))
+            else:
+                d = "accepts under %s: %s" % (vn, ", ".join("%s (KMIP %d.%d)" % (t, iv[0], iv[1])
+                                                              for t, (iv, _) in sorted(late.items())))
+                a = sorted(late.items())[0][1][1]
+                model = {"class": cname, "version": vn, "obligation": VERSION_OBLIGATION, "shape": a.shape,
+                         "tree": a.tree, "detail": d}
+                res = pyvc.ObligationResult(name, "ttlv", "failed", d[:300], model, None, "ttlvsym")
+                res.known = _known_for(known, name, d) or _known_for(known, "ttlv:%s/*/%s" % (cname, VERSION_OBLIGATION), d)
+                sess.record(res)
+            if not exhaustive:
+                bounded_names.append(name)
         if acc and len(samples) < 2:
             samples.append({"class": cname, "version": vn, "shape": acc[0].shape[:3]})
         natives.append((vn, acc))
@@ -242,7 +270,8 @@ def _native_crosscheck(sess, cname, natives, tier, known, summ):
     import subprocess
     outs = []
     for i in range(0, len(jobs), 200):
-        p = subprocess.run([sys.executable, "-W", "ignore", "-m", "vf.ttlvreplay", json.dumps(jobs[i:i + 200])],
+        p = subprocess.run([sys.executable, "-W", "ignore", "-m", "vf.ttlvreplay", "-"],
+                           input=json.dumps(jobs[i:i + 200]),
                            cwd=os.path.dirname(os.path.dirname(os.path.abspath(__file__))),
                            capture_output=True, text=True, timeout=600)
         line = next((l for l in p.stdout.splitlines() if l.startswith("[")), None)
@@ -345,6 +374,8 @@ def replay_shape(model, summ, ctx):
             fail = False
         elif ob == "enc.ok":
             fail = res.get("encode") not in ("ok", None)
+        elif ob == VERSION_OBLIGATION:
+            fail = res.get("decode") == "ok"        # the real decoder accepts the later version's field
         elif ob == "wf":
             fail = res.get("wf") is False
         elif ob == "dec2.ok":
